@@ -180,6 +180,28 @@ package ops
 //@   ensures dense_result: err == nil && blen(B) == nelems(shapeof(B)) ==> blen(result1) == nelems(shapeof(result1))
 
 // ---------------------------------------------------------------------------------------
+// C06: the packed weight / bias tensors of the recurrent operators are cut into equal blocks along
+// axis 1, block k being rows [k*hiddenSize, (k+1)*hiddenSize) of direction 0. vparent / vwhole /
+// vstart / vend / vstep describe what a view returned by gorgonia's Slice was asked to select.
+
+//@ spec is_slicer(s tensor.Slice, start int, end int, step int) bool = s != nil && typeof(s) == tagof("*ops.Slicer") && allocated(unbox(s, "*ops.Slicer")) &&
+//@          unbox(s, "*ops.Slicer").start == start && unbox(s, "*ops.Slicer").end == end && unbox(s, "*ops.Slicer").step == step
+//@ spec extracted_block(v tensor.Tensor, M tensor.Tensor, k int, h int) bool = v != nil && vparent(v) == ref(M) &&
+//@          !vwhole(v, 0) && vstart(v, 0) == 0 && vend(v, 0) == 1 && vstep(v, 0) == 1 &&
+//@          !vwhole(v, 1) && vstart(v, 1) == k * h && vend(v, 1) == (k + 1) * h && vstep(v, 1) == 1 && (forall d :: 2 <= d ==> vwhole(v, d))
+
+//@ func ExtractMatrices
+//@   tags C06,C02
+//@   requires M != nil
+//@   scope sizes: nMatrices >= 0 && nDimensions >= 2
+//@   ensures one_view_per_block: err == nil ==> len(result) == nMatrices
+//@   ensures block_k_is_rows_k_h_to_k_plus_1_h: err == nil ==> (forall k :: 0 <= k && k < nMatrices ==> extracted_block(result[k], M, k, hiddenSize))
+//@   loop 1 invariant 0 <= i && i <= nMatrices && len(matrices) == nMatrices && (nMatrices == 0 || fresh(matrices)) && is_slicer(dirSlice, 0, 1, 1)
+//@   loop 1 invariant forall k :: 0 <= k && k < i ==> extracted_block(matrices[k], M, k, hiddenSize)
+//@   loop 2 invariant 2 <= i && len(allSlices) == nDimensions && fresh(allSlices) && allSlices[0] == dirSlice && allSlices[1] == hiddenSlice &&
+//@          (forall d :: 2 <= d && d < i && d < nDimensions ==> allSlices[d] == nil)
+
+// ---------------------------------------------------------------------------------------
 // C03: elementwise binary operators. The kernels themselves are gorgonia's (trusted model: equal
 // shapes and dtypes else error, result of that shape, content k_bin(kind, lhs, rhs)); what is
 // proved here is the dispatch (which kernel), the broadcasting around it and the refusals.
